@@ -1,6 +1,7 @@
 """C12 — message ids are unique and increasing per topic (engine E1, DESIGN.md §5 C12)."""
 import os
-from framework import REPO
+import re
+from framework import REPO, LEAN, sh
 
 TIE = ["Nsq.Tie.Guid"]
 PROPS = ["Nsq.Props.C12"]
@@ -17,7 +18,9 @@ def run(ctx):
     ctx.rule = ("correspondence: generated guidFactory pre-states (same/past/future pseudo-ms, sequence "
                 "0/4094/4095/random, lastID below/equal/above the id about to be produced) and random "
                 "int64 for Hex; a case is distinct by its input line and non-trivial when the answer is "
-                "not the all-zero error line; oracle: 16 concurrent publishers on one real Topic")
+                "not the all-zero error line; oracles (API only): 16 concurrent publishers on one real "
+                "Topic, back-to-back NewGUID bursts on bare factories (sequence exhausted many times), "
+                "single-goroutine Topic.GenerateID burst")
     # 1-2: regenerate, build, audit
     gen_ok, _ = ctx.gen("e1_codec")
     ok, log = ctx.lean_build(TIE + PROPS)
@@ -26,14 +29,14 @@ def run(ctx):
     ctx.lean_audit(PROPS, TIE)
     if ctx.thorough():
         ctx.leanchecker(PROPS)
-    # 3-4: correspondence
+    # 3-4: correspondence (white-box harness; may stop compiling when guid.go's internals change)
     n = ctx.budget(20000, 400000)
     corr_broken = []
     ctx.build_driver("e1")
     binp = ctx.go_test_binary("nsqd", ["e1/guid_test.go"], "e1guid")
     if not binp:
-        ctx.broken_ties.append("harness e1/guid_test.go does not compile against the current tree")
-        corr_broken.append("harness build")
+        ctx.broken_ties.append("white-box harness e1/guid_test.go does not compile against the current tree")
+        corr_broken.append("white-box harness build")
     else:
         rc, out = ctx.run_cmd([binp, "-test.run", "^TestVerifGuidCorr$", "-test.count=1"], timeout=900,
                               env={"VERIF_SEED": ctx.seed, "VERIF_N": n, "VERIF_OUT": ctx.work})
@@ -63,9 +66,23 @@ def run(ctx):
                 bad = property_fails_on(ops[idx], a)
                 if bad:
                     ctx.violation(key, bad, "op: %s\nimpl: %s\nmodel: %s\n" % (ops[idx], a, b))
-        # 5: the property oracle on the implementation itself
+    # search phase helper: when the tie is broken, look for a falsifying run of the regenerated
+    # definition itself (a candidate only — it is the burst oracle below that executes real code)
+    burst_nodes = [1, 1023, 512]
+    if gen_ok and (ctx.broken_ties or corr_broken):   # (a rejected translation leaves a stale Gen file: skip)
+        for cand in gen_search(ctx):
+            ctx.notes.append("candidate from the regenerated NewGUID: " + cand)
+            m = re.search(r"node=(\d+)", cand)
+            if m and int(m.group(1)) not in burst_nodes:
+                burst_nodes.insert(0, int(m.group(1)))
+    # 5: the property oracles on the implementation itself (API only)
+    obin = ctx.go_test_binary("nsqd", ["e1/guid_oracle_test.go"], "e1guidoracle")
+    if not obin:
+        ctx.broken_ties.append("oracle harness e1/guid_oracle_test.go does not compile against the current tree")
+        corr_broken.append("oracle harness build")
+    else:
         for node in ([1023] if not ctx.thorough() else [0, 1023, 512]):
-            rc, out = ctx.run_cmd([binp, "-test.run", "^TestVerifGuidOracle$", "-test.count=1"], timeout=900,
+            rc, out = ctx.run_cmd([obin, "-test.run", "^TestVerifGuidOracle$", "-test.count=1"], timeout=900,
                                   env={"VERIF_SEED": ctx.seed, "VERIF_N": ctx.budget(20000, 200000),
                                        "VERIF_OUT": ctx.work, "VERIF_NODEID": node})
             okline = [l for l in out.splitlines() if l.startswith("ORACLE-OK")]
@@ -79,11 +96,91 @@ def run(ctx):
                 ids = int(okline[0].split("ids=")[1].split()[0])
                 ctx.evaluations += ids
                 ctx.corr.setdefault("oracle", []).append(okline[0])
+        # bursts: more than 4096 requests per pseudo-millisecond, sequence exhausted many times
+        expired_total = 0
+        for node in burst_nodes:
+            for test, nn in (("TestVerifGuidBurst", ctx.budget(400000, 3000000)),
+                             ("TestVerifGuidTopicBurst", ctx.budget(60000, 400000))):
+                rc, out = ctx.run_cmd([obin, "-test.run", "^%s$" % test, "-test.count=1"], timeout=900,
+                                      env={"VERIF_SEED": ctx.seed, "VERIF_N": nn, "VERIF_OUT": ctx.work,
+                                           "VERIF_NODEID": node})
+                okline = [l for l in out.splitlines() if l.startswith("BURST-OK")]
+                fail = [l for l in out.splitlines() if l.startswith("BURST-FAIL")]
+                if fail:
+                    ctx.violation("guid-burst", fail[0],
+                                  "%s, node-id %d, %d back-to-back requests from one goroutine\n%s\n"
+                                  % (test, node, nn, fail[0]))
+                elif rc != 0 or not okline:
+                    ctx.log("burst oracle run failed:\n" + out[-2000:])
+                    corr_broken.append("burst oracle exit %s" % rc)
+                else:
+                    ctx.evaluations += nn
+                    ctx.corr.setdefault("burst", []).append(okline[0])
+                    m = re.search(r"sequenceExpired=(\d+)", okline[0])
+                    if m:
+                        expired_total += int(m.group(1))
+        ctx.corr["burst_sequence_expired_total"] = expired_total
+        if expired_total == 0 and not ctx.violations:
+            ctx.notes.append("burst oracle inconclusive: the per-millisecond sequence was never exhausted "
+                             "(machine too slow / too loaded for > 4096 NewGUID calls per pseudo-millisecond)")
     # 6: verdict for a broken tie without a failing input
     if (ctx.broken_ties or corr_broken) and not ctx.violations:
         ctx.broken_without_input(ctx.broken_ties + corr_broken,
-                                 "search: %d generated pre-states and the concurrent oracle found no "
-                                 "duplicate or non-increasing id" % ctx.evaluations)
+                                 "search: %d generated pre-states, the concurrent oracle and the burst "
+                                 "oracles found no duplicate or non-increasing id" % ctx.evaluations)
+
+
+def gen_search(ctx):
+    """Run the *regenerated* Nsq.Gen.Codec.newGUID (whatever its state structure now is) on
+    constant-clock bursts and report the first successful id that is not above its predecessor.
+    Returns a list of candidate descriptions (possibly empty; empty too when Gen does not
+    elaborate)."""
+    genp = os.path.join(LEAN, "Nsq", "Gen", "Codec.lean")
+    try:
+        src = open(genp).read()
+    except OSError:
+        return []
+    m = re.search(r"structure newGUIDState where\n((?:  \w+ : BitVec 64\n)+)", src)
+    if not m:
+        return []
+    fields = re.findall(r"  (\w+) : BitVec 64", m.group(1))
+    if "nodeID" not in fields:
+        return []
+    init = ", ".join("%s := %s" % (f, "BitVec.ofNat 64 node" if f == "nodeID" else "0#64") for f in fields)
+    lean = """import Nsq.Gen.Codec
+open Nsq.Gen.Codec
+def z (node : Nat) : newGUIDState := { %s }
+def burst (node : Nat) (now : BitVec 64) (n : Nat) : Option String := Id.run do
+  let mut f := z node
+  let mut prev : Option (BitVec 64) := none
+  let mut k := 0
+  for i in [0:n] do
+    let r := newGUID f now
+    f := r.1
+    if r.2.2 == "" then
+      match prev with
+      | some p => if BitVec.sle r.2.1 p then
+          return some s!"CANDIDATE node={node} clock constant at {now.toNat} ns: success #{k} (call #{i}) returns id {r.2.1.toInt} after id {p.toInt}"
+      | none => pure ()
+      prev := some r.2.1
+      k := k + 1
+  return none
+#eval (do
+  for node in [1, 2, 1023] do
+    for now in [1700000000000000000#64, 1700000000001048576#64] do
+      match burst node now 8400 with
+      | some s => IO.println s
+      | none => pure ()
+  : IO Unit)
+""" % init
+    f = os.path.join(ctx.work, "gen_search.lean")
+    with open(f, "w") as fh:
+        fh.write(lean)
+    rc, out = sh(["lake", "env", "lean", f], cwd=LEAN, timeout=300)
+    cands = [l for l in out.splitlines() if l.startswith("CANDIDATE")]
+    if rc != 0 and not cands:
+        ctx.log("search over the regenerated NewGUID did not elaborate (rc=%s): %s" % (rc, out[-300:]))
+    return cands[:3]
 
 
 def property_fails_on(op, impl):
